@@ -12,7 +12,7 @@ class C11(PipelineProp):
     def rule(self):
         return (
             "PretextView-model edit scripts (and 20% perturbed ones) over TPF-style inputs with forward and reverse "
-            "contigs, 1-bp contigs, contigs abutting without gap, 25% maps that flip single contigs (1-bp ones included) in place at a 1-bp texel, contig-less (gap-only) input scaffolds, whole scaffolds re-oriented in the map; cuts / "
+            "contigs, 1-bp contigs, contigs abutting without gap, 25% maps that flip single contigs (1-bp ones included) in place at a 1-bp texel, contig-less (gap-only) input scaffolds, re-curation inputs (two pieces of one contig side by side on opposite strands, the scaffold shown reversed), whole scaffolds re-oriented in the map; cuts / "
             "breaks / joins recounted independently from unordered pairs of facing contig ends. non-trivial = "
             "distinct completed case with at least one junction in input or output"
         )
@@ -44,9 +44,52 @@ class C11(PipelineProp):
         return {"gen": "flip-in-place", "input": {"scaffolds": [{"name": "S1", "rows": rows}]},
                 "pretext": {"bpt": "1.000000", "scaffolds": ptx}, "prefix": "SUPER_"}
 
+    def gen_recuration(self, rng):
+        """an input from an earlier curation round: pieces of ONE contig next to each other with
+        opposite strands (head-to-head / tail-to-tail junctions between equal names), the scaffold
+        shown whole, reversed or piecewise flipped in the map"""
+        rows = []
+        baits = []
+        pos = 0
+        for k in range(rng.randint(1, 4)):
+            if rows:
+                g = rng.choice([0, 10, 200])
+                if g:
+                    rows.append(["G", g, "scaffold"])
+                    pos += g
+            a = rng.choice([1, 40001])
+            n1, n2 = rng.choice([1, 5, 400]), rng.choice([1, 7, 500])
+            s1 = rng.choice([1, -1])
+            first = ["F", f"ctg{k + 1}", a, a + n1 - 1, s1, []]
+            second = ["F", f"ctg{k + 1}", a + n1, a + n1 + n2 - 1, -s1, []]
+            if rng.random() < 0.5:
+                first, second = second, first
+            for piece in (first, second):
+                ln = piece[3] - piece[2] + 1
+                rows.append(piece)
+                baits.append(["F", "S1", pos + 1, pos + ln, 1, []])
+                pos += ln
+                if piece is first and rng.random() < 0.3:
+                    rows.append(["G", 5, "contig"])
+                    pos += 5
+        mode = rng.choice(["whole-rev", "whole-rev", "whole-fwd", "piecewise"])
+        if mode == "piecewise":
+            prows = []
+            for b in reversed(baits) if rng.random() < 0.5 else baits:
+                if prows:
+                    prows.append(list(P.PGAP))
+                prows.append(b[:4] + [rng.choice([1, -1])] + b[5:])
+            ptx = [{"name": "Scaffold_1", "rows": prows}]
+        else:
+            ptx = [{"name": "Scaffold_1", "rows": [["F", "S1", 1, pos, -1 if mode == "whole-rev" else 1, []]]}]
+        return {"gen": "recuration/" + mode, "input": {"scaffolds": [{"name": "S1", "rows": rows}]},
+                "pretext": {"bpt": "1.000000", "scaffolds": ptx}, "prefix": "SUPER_"}
+
     def gen_case(self, rng):
         if rng.random() < 0.25:
             return self.gen_flip_in_place(rng)
+        if rng.random() < 0.15:
+            return self.gen_recuration(rng)
         inp = P.gen_input(rng, style=rng.choice(["tpf", "tpf", "fasta"]))
         if rng.random() < 0.3:
             # a scaffold without any contig (an all-N record, an AGP object made of gap lines only)
